@@ -91,11 +91,22 @@ Definition agree_h (c : hcase) : bool :=
        outcome  : 0 done, 1 rejected, 2 exit failed, 3 no context
      seen = two digits: code of the name get_backend() returned (63 = a name outside the tables),
             executing object (0 unmarked stock object, 1 unidentified, 2+n Named n, 8+k Obj k) *)
-Fixpoint digits (fuel : nat) (x : N) : list nat :=
-  match fuel with
-  | O => []
-  | S f => if N.leb x 1 then [] else N.to_nat (N.modulo x 64) :: digits f (N.div x 64)
+(* the digits are read off the binary representation directly (6 bits per digit, the closing digit 1 is
+   the leading bit of the positive): linear in the size of the number, no division *)
+Fixpoint pbits (p : positive) : list bool :=
+  match p with xH => [] | xO q => false :: pbits q | xI q => true :: pbits q end.
+
+Definition b2n (b : bool) : nat := if b then 1 else 0.
+
+Fixpoint group6 (l : list bool) : list nat :=
+  match l with
+  | b0 :: b1 :: b2 :: b3 :: b4 :: b5 :: r =>
+      (b2n b0 + 2 * (b2n b1 + 2 * (b2n b2 + 2 * (b2n b3 + 2 * (b2n b4 + 2 * b2n b5))))) :: group6 r
+  | _ => []
   end.
+
+Definition digits (x : N) : list nat :=
+  match x with N0 => [] | Npos p => group6 (pbits p) end.
 
 Definition dec_tok (d : nat) : option inst :=
   match d with 0 => None | 1 => Some (Foreign 99) | _ => if d <? 8 then Some (Named (d - 2)) else Some (Obj (d - 8)) end.
@@ -136,7 +147,7 @@ Fixpoint dec_steps (nth n : nat) (l : list nat) : option (list entry) :=
   end.
 
 Definition decode (x : N) : option hcase :=
-  match digits (N.size_nat x) x with
+  match digits x with
   | ta :: nth :: own :: l =>
       match dec_seen nth l with
       | Some (xs0, ns :: r) =>
